@@ -15,7 +15,12 @@ RULE = ("each case = one real System built by the real SystemBuilder (build + in
         "harness and drivers alike (corpus/C20S/review_b.ops). Thorough additionally enumerates every op sequence of length <= 3 over 8 symbols (market trade "
         "with reaction, trading on, trading off, open, close, cancel_orders, settle, sleep 50) for {iter,stream} x {audit on,off} at latency 50 ms "
         "(2 340 cases). An input-domain family (cases d<n>, one per 8 random cases, own PRNG stream; hand cases in corpus/C20S/dom_multi_request.ops) draws what the random cases never do: quote balances 0 / 100 / 2e12 and base balances 0 / 1 "
-        "(exact fits), latencies 1 / 500 ms, prices 0.5 / 99.99 / 1e12, quantities 3 / 1e-8, up to THREE open and TWO cancel requests in one call. A case is distinct by the SHA-1 of its op lines and non-trivial when the implementation's observation blocks differ")
+        "(exact fits), latencies 1 / 500 ms, prices 0.5 / 99.99 / 1e12, quantities 3 / 1e-8, up to THREE open and TWO cancel requests in one call. "
+        "A CONFIGURATION-SHAPE family (cases cfg<n>, one per 8 random cases, own PRNG stream; hand cases in corpus/C20S/cfg_shapes.ops) assembles the system as the random cases never do: "
+        "in 2 of 3 cases the exchange without execution link is ExchangeId::Other, which sorts BEFORE the mocked exchange (`x2 = 2`: MultiExchangeTxMap = [None, Some], the mocked exchange is "
+        "ExchangeIndex(1), its instruments InstrumentIndex(1..k), its assets behind the other exchange's; all other cases have the mocked exchange at index 0), and in 2 of 3 cases the builder "
+        "calls are made in ANY order with setters repeated (`sysb <calls> ...`: 0-5 calls drawn from engine_feed_mode Iterator / Stream, audit_mode on / off, trading_state on / off; the `sys` line "
+        "always calls feed, audit, trading in that order, each at most once); the spec driver states the documented outcome (last call of a setter counts, defaults otherwise). A case is distinct by the SHA-1 of its op lines and non-trivial when the implementation's observation blocks differ")
 ASSUMPTIONS = [
     "current-thread tokio runtime with a paused clock; the harness never relies on auto-advance: virtual time moves only in `sleep` ops "
     "(mock exchange latency 0 / 50 / 200 ms; the 1 s request timeout of the execution manager and the reconnection back-off are never reached)",
@@ -51,6 +56,10 @@ ASSUMPTIONS = [
     "number range: the models use exact rationals; Decimal overflow (e.g. 1e15 x 1e15 against a 7e28 balance kills the mock exchange task: `res joinerr 1` where the model closes normally), "
     "k = 0 instruments and market items / requests naming an instrument index beyond the configured ones (the harness's label lookup panics) are outside the generator and outside the model",
     "strategy decisions depend on recorded market trades only; DefaultRiskManager (approves everything); mock exchange with zero fees",
+    "set-up shapes FIXED by the harness (configuration-shape audit): exactly ONE exchange with an execution link (ExecutionConfig::Mock) and at most one without, with one instrument; spot instruments only; "
+    "SystemBuilder::balances() never called (engine balances are not observed here); SystemBuild::init() on the current runtime (init_with_runtime with another runtime, a multi-thread runtime: not "
+    "driven - the paused current-thread clock is what makes the run a function of the script); System::shutdown_after_backtest is C20's; the recording clock (neither LiveClock nor HistoricalClock); "
+    "one strategy (reacts to tagged trades) and DefaultRiskManager",
     "FeedEnded is not reachable while the System value lives (handle and forwarders hold feed senders); it is modelled only in the four runner functions",
     "position arithmetic beyond (side, net quantity) is C02's; balances inside the engine state are not compared (C09's)",
 ]
